@@ -294,6 +294,10 @@ func (ex *Exec) staticCall(st *State, i *ssa.Call, f *ssa.Function) []*State {
 		st.regs[i] = ext(ex, st, i, args)
 		return []*State{st}
 	}
+	if canon, ok := ex.equivCalls[key]; ok {
+		st.regs[i] = ex.equivCall(st, i, f, canon, args)
+		return []*State{st}
+	}
 	fc := ex.eng.contracts.Funcs[key]
 	if fc == nil {
 		ex.unsupported(st, "call to "+key+" (no contract)", i.Pos())
@@ -328,9 +332,34 @@ func (ex *Exec) applyContract(st *State, i *ssa.Call, f *ssa.Function, fc *FuncC
 	}
 	pre := st.clone() // snapshot for old()
 	oldEnv := &Env{ex: ex, st: pre, vars: vars, lets: letMap(fc)}
+	// spec-run clauses of the callee speak about the run named by (variant, limit) that starts at
+	// the callee's data[0] (unless init=none: then they are relative to the caller's run). They may
+	// be used only when that is the caller's run too: same variant and limit, and, for a callee with
+	// its own start, the argument slice starts at offset 0 of the input region.
+	simOK := true
+	if ex.simVariant != "" {
+		if cfg, err := parseSimCfg(fc); err != nil || cfg == nil {
+			simOK = false
+		} else {
+			if cfg.Variant != ex.simVariant || cfg.Limit != ex.simLimit {
+				simOK = false
+			}
+			if fc.SimOpts["init"] != "none" {
+				if sv, ok := vars[cfg.Data].V.(*SliceV); !ok || sv.Off != I64(0) {
+					simOK = false
+				}
+			}
+		}
+	}
+	active := func(c *Clause) bool {
+		if (c.Mode == "sim" || c.Mode == "simwb") && !simOK {
+			return false
+		}
+		return ex.clauseActive(c)
+	}
 	// requires
 	for n, c := range fc.Requires {
-		if !ex.clauseActive(c) {
+		if !active(c) {
 			continue
 		}
 		env := &Env{ex: ex, st: st, vars: vars, lets: letMap(fc), prove: true}
@@ -400,7 +429,7 @@ func (ex *Exec) applyContract(st *State, i *ssa.Call, f *ssa.Function, fc *FuncC
 	}
 	// ensures
 	for _, c := range append(append([]*Clause{}, fc.Ensures...), fc.Defines...) {
-		if !ex.clauseActive(c) {
+		if !active(c) {
 			continue
 		}
 		env := &Env{ex: ex, st: st, vars: resVars, lets: letMap(fc), old: oldEnv}
